@@ -16,6 +16,12 @@ func (p *Parser) parseMatchAgainst(matchFunc *ast.FunctionCall) (ast.Expression,
 	}
 	p.advance() // Consume (
 
+	p.depth++
+	defer func() { p.depth-- }()
+	if p.depth > MaxRecursionDepth {
+		return nil, p.recursionDepthError()
+	}
+
 	// Parse search expression (just the primary — not full expression, to avoid IN being eaten)
 	searchExpr, err := p.parsePrimaryExpression()
 	if err != nil {
